@@ -3,6 +3,7 @@ instance, replays every emitted scenario through the real library, validates rec
 implementation traces against the trace specification, and reports mismatches."""
 import json
 import os
+import random
 import subprocess
 
 import vlib
@@ -457,7 +458,9 @@ def check_C13(rep, tier):
     rep.cov["rule"] = ("TLC enumerates steps with surplus valid authorised links that differ (plain links and a sub-layout summary) x "
                        "thresholds x rule sets that do / do not depend on the representative link; Reduce is nondeterministic in "
                        "Verify.tla so TLC yields the set of admissible (verdict, summary) pairs per scenario.  Each scenario is verified "
-                       "N times in-process (fresh hash seeds per map) and again in fresh processes; the observation history is "
+                       "N times in-process (fresh hash seeds per map) and again in fresh processes, the passes visiting the scenarios in "
+                       "different orders (so each is observed after different earlier verifications, including ones that fail inside "
+                       "a sub-layout); the observation history is "
                        "validated against Determinism.tla (all observations of one scenario equal, each admitted by Verify.tla).  "
                        "Non-trivial = the specification admits more than one outcome (pick-sensitive scenario).")
     vr = VerifyRun(rep, "C13")
@@ -499,8 +502,19 @@ def check_C13(rep, tier):
             for fam in ("ed25519", fam2):
                 hf.write(json.dumps({"ev": "declare", "id": f"{i}/{fam}", "set": sorted(p)}) + "\n")
         for pas in range(4 if tier == "quick" else 8):
-            # same scenario + same key family = same inputs; every pass is a set of fresh processes
+            # same scenario + same key family = same inputs; every pass is a set of fresh processes.  Passes
+            # differ in the ORDER of the scenarios within each process, so that every scenario is observed after
+            # different histories of other verifications (succeeding and failing ones) in the same thread
             env = {"ITV_FAMILY": "ed25519" if pas % 2 == 0 else fam2}
+            for k in range(vr.sh.n):
+                path = os.path.join(vr.sh.dir, f"in{k}.ndjson")
+                with open(path) as f:
+                    rows = [x for x in f if x.strip()]
+                rows.sort(key=lambda x: json.loads(x)["i"], reverse=(pas // 2) % 2 == 1)
+                if pas >= 4:
+                    random.Random(vlib.seed() * 31 + pas).shuffle(rows)
+                with open(path, "w") as f:
+                    f.writelines(rows)
             vr.sh.run(env_extra=env, per_shard_cwd=True)
             for r in vr.sh.results():
                 vr.judge(r, env)
@@ -624,7 +638,10 @@ def check_C11(rep, tier):
                        "members per sequence, seeded), checks its own reference renderer against the TLC atoms, and requires through "
                        "the public API that (1) an ed25519 signature made directly over the reference bytes is accepted and (2) the "
                        "library's own signature equals it; key ids are compared with sha256 of the reference rendering of the key "
-                       "description.  Thorough: every Unicode scalar value.  Non-trivial = the string contains a class where "
+                       "description.  Sibling member names (environment variables, artifact paths, extra byproducts): TLC enumerates "
+                       "every set of 2 (thorough: 3) names up to length 2 over the order classes ASCII < DEL < BMP below the surrogates "
+                       "< BMP above them < supplementary and computes the code-point order the signed bytes must have (it differs from "
+                       "UTF-16 order exactly where the last two meet).  Thorough: every Unicode scalar value.  Non-trivial = the string contains a class where "
                        "general-purpose JSON escaping and the reference encoding differ.")
     sh = Sharder("C11")
     dv = {}
@@ -632,7 +649,7 @@ def check_C11(rep, tier):
     def on_scn(s):
         i = sh.add({k: s[k] for k in ("m", "field", "s", "ref")})
         dv[i] = s["dv"]
-        if s["dv"] or any(c in ("Q", "B", "N") for c in s["s"]):
+        if s["dv"] or s["field"] == "order" or any(c in ("Q", "B", "N") for c in s["s"]):
             rep.nontrivial(i)
         if i % 701 == 5:
             rep.sample({"field": s["field"], "classes": s["s"], "reference_atoms": s["ref"]})
@@ -640,7 +657,7 @@ def check_C11(rep, tier):
     st = run_tlc("MC_C11", f"MC_C11_{tier}.cfg", "c11", on_scn=on_scn)
     require_clean(st, "MC_C11")
     rep.add_tlc(st, "MC_C11")
-    rep.vacuity(["Encode"])
+    rep.vacuity(["Encode", "Order"])
     rep.cov["exhaustive"] = True
     sh.run(env_extra={"ITV_REPS": "3" if tier == "quick" else "8"})
     n = 0
@@ -960,6 +977,8 @@ def check_C17(rep, tier):
         if not r.get("channels_agree"):
             d = r.get("detail") or ""
             rep.mismatch({"kind": "channel_dependent", "doc": s["kind"], "detail": d[:60]}, mk)
+        if s["kind"] == "pred" and r.get("typed_agree") is False:
+            rep.mismatch({"kind": "channel_dependent", "doc": "typed predicate", "detail": (r.get("typed_detail") or "")[:60]}, mk)
 
     _wire(rep, tier, "C17", ("rule", "link", "layout", "pred", "stmt"), judge)
     rep.cov["evaluations"] *= 48
@@ -996,6 +1015,14 @@ def check_C19(rep, tier):
             rep.cov["drift"] += 1
             rep.cov.setdefault("rejected_though_schema_accepts", 0)
             rep.cov["rejected_though_schema_accepts"] += 1
+        if s["kind"] == "pred":
+            # the format parsers themselves: what one of them accepts round-trips
+            if r.get("typed_rt") is False:
+                rep.mismatch({"kind": "round_trip", "doc": "typed predicate", "detail": (r.get("typed_detail") or "")[:80]}, mk)
+            if len(r.get("typed_accepts") or []) > 1:
+                rep.mismatch({"kind": "recognised_as_several_versions", "which": r.get("typed_accepts")}, mk)
+            if s["desc"]["ts"] != "none" and r.get("typed_accepts"):
+                rep.cov["timestamped_predicates_round_tripped"] = rep.cov.get("timestamped_predicates_round_tripped", 0) + 1
 
     _wire(rep, tier, "C19", ("pred", "stmt"), judge)
     res = last_json(run_itv(["record", "C19meta", "240" if tier == "quick" else "2400"]))
